@@ -158,6 +158,11 @@ struct Universe final : IUniverse {
     // ------------------------------------------------------------ the callback
     void callback(TokenInfo *info, const SelfView *selfView, const Args &...args) {
         if (info->dead) rec().fail("CALL_AFTER_FREE");
+        if (rec().log.size() > 5000) {      // a runaway round (only possible when the code under test is wrong)
+            rec().fail("LOG_OVERFLOW");
+            fuelLeft = 0;
+            return;
+        }
         rec().log.push_back(std::to_string(info->id) + "(" + argStr(args...) + ")[");
         ++info->running;
         Subj &subject = *subjects.at(info->subj).p;
